@@ -323,6 +323,17 @@ class JsonSerSuite(Suite):
             if rng.random() < 0.25:
                 cases.append(Case("jsonbuf %d %d %s" % (cb, 0, spec), kind="buf0", spec=spec, pretty=False))
                 cases[-1].meta["sweep"] = True
+        # deep documents: the pretty printer's indentation at every nesting level the library can hold (chains with a few siblings per level)
+        for depth in list(range(1, 34)) + [60, 100]:
+            for shape in range(3):
+                inner = rng.choice(["I1", "S78", "N", "[]", "{}"])
+                t = inner
+                for lvl in range(depth):
+                    if shape == 0 or (shape == 2 and lvl % 2 == 0):
+                        t = "[" + (rng.choice(["T,", "U7,", ""])) + t + rng.choice(["", ",N", ",S6162"]) + "]"
+                    else:
+                        t = "{" + rng.choice(["", "61:T,"]) + "6b:" + t + rng.choice(["", ",7a:I-3"]) + "}"
+                cases.append(Case("jsonser %d t:%s" % (cb, t), kind="ser"))
         # buffer sweeps are expanded in a second pass by check.py? keep it simple: fixed small docs, all capacities
         for t in ["t:[I1,U5]", "t:{61:S6869,62:[N,T]}", "t:S", "t:N", "t:f3fc00000", "t:[S00,d400921fb54442d18]", "t:{}", "t:[[],{}]", "t:R5b312c325d"]:
             for op in ("jsonbuf", "prettybuf"):
@@ -1478,6 +1489,61 @@ class DeserMemSuite(Suite):
     def feature(self, case, h):
         return h.split(" ")[0] + str(len(case.meta["text"]).bit_length())
 
+
+class CopyEqSuite(Suite):
+    """C04: 'copies are deep and independent of their source' for documents of any origin (API terms, JSON, MessagePack incl. bin/ext and repeated keys):
+    set(), the copy constructor and member assignment give a value equal to the source; mutating the copies leaves the source alone. Implementation only."""
+    name = "copyeq"
+    uses_driver = False
+
+    def generate(self, rng, tier):
+        n = getattr(self, "n", 1200 if tier == "quick" else 60000)
+        cases = []
+        for hexs_ in ["82a16101a16102", "83a16101a16290a16103", "9182a16bc0a16bc3", "81a161 82a162 01 a162 02".replace(" ", "")]:
+            cases.append(Case("copyeq m:" + hexs_, spec="m:" + hexs_, nocompare=True))
+        for i in range(n):
+            r = rng.random()
+            if r < 0.45:
+                spec = "t:" + show_tree(gens.gen_doc_term(rng, raw="mp"))
+            elif r < 0.8:
+                spec = "m:" + mpack.encode(mpack.gen_value(rng, dup_keys=True), rng).hex()
+            else:
+                spec = "j:" + gens.gen_json_doc(rng)[1].hex()
+            cases.append(Case("copyeq " + spec, spec=spec, nocompare=True))
+        return cases
+
+    @staticmethod
+    def has_dup(t):
+        if t[0] == "A":
+            return any(CopyEqSuite.has_dup(x) for x in t[1])
+        if t[0] == "O":
+            ks = [k for k, _ in t[1]]
+            return len(set(ks)) != len(ks) or any(CopyEqSuite.has_dup(v) for _, v in t[1])
+        return False
+
+    def oracle(self, case, h):
+        o = Suite.oracle(self, case, h)
+        if o:
+            return (o[0], o[1] + " on " + case.line[:100])
+        f = h.split(" ")
+        if len(f) < 7:
+            return ("copyeq:bad-output", h[:100])
+        src, c2, c3, c4 = f[0], f[1], f[2], f[3]
+        if f[6] != "src=same":
+            return ("copyeq:source-changed", "mutating a copy changed the source: " + case.line[:100])
+        dup = self.has_dup(parse_tree(src)) if src not in ("?",) else False
+        for name, c in (("set()", c2), ("copy constructor", c3), ("member assignment", c4)):
+            if canon_nan(c) != canon_nan(src):
+                sig = "copyeq:not-equal" + (":repeated-keys" if dup else "")
+                return (sig, "%s of %s gives %s" % (name, src[:80], c[:80]))
+        maybe_nan = re.search(r"f(7f[89a-f]|ff[89a-f])|d(7ff|fff)", src) is not None      # a NaN never compares equal, not even to its copy (C18)
+        if f[5] != "eq=1" and not maybe_nan and not dup and "R" not in src:
+            return ("copyeq:compare", "the copy does not compare equal to its source: " + src[:80])
+        return None
+
+    def feature(self, case, h):
+        return h.split(" ")[0][:40]
+
 # ================================================================================================ C16: streams
 class StreamSuite(Suite):
     name = "stream"
@@ -2096,6 +2162,8 @@ GEOMETRIES = {
     "id1i3": {"POOL_CAPACITY": 4, "INITIAL_POOL_COUNT": 3, "SLOT_ID_SIZE": 1},
     "len1": {"POOL_CAPACITY": 128, "INITIAL_POOL_COUNT": 2, "SLOT_ID_SIZE": 2, "STRING_LENGTH_SIZE": 1},
     "len4": {"POOL_CAPACITY": 256, "INITIAL_POOL_COUNT": 4, "SLOT_ID_SIZE": 4, "STRING_LENGTH_SIZE": 4},
+    # no 64-bit integer storage: doubles are then the only users of extension slots (histories restricted to 32-bit integers)
+    "nolonglong": {"USE_LONG_LONG": 0, "POOL_CAPACITY": 3, "INITIAL_POOL_COUNT": 1, "SLOT_ID_SIZE": 2},
 }
 
 
@@ -2123,7 +2191,8 @@ class HistSuite(Suite):
         nh = getattr(self, "nh", 60 if tier == "quick" else 3000)
         nops = getattr(self, "nops", 60)
         for _ in range(nh):
-            yield H.gen_history(rng, rng.choice([nops // 2, nops, nops * 2]), geo_of(self.cfg), strkind=getattr(self, "strkind", None))
+            yield H.gen_history(rng, rng.choice([nops // 2, nops, nops * 2]), geo_of(self.cfg), strkind=getattr(self, "strkind", None),
+                                small_ints=self.cfg.get("USE_LONG_LONG", 1) == 0)
 
     def generate(self, rng, tier):
         cases = []
